@@ -301,7 +301,11 @@ class SymEnv(flow.Client):
             if self.keep_fact is not None and not self.keep_fact(t):
                 out.add((env_t, facts))
                 continue
-            out.add((env_t, facts | {(t, truth)}))
+            extra = set()
+            if truth and isinstance(a, ast.Compare) and len(a.ops) == 1 and isinstance(a.ops[0], (ast.Is, ast.Eq)) \
+                    and isinstance(a.comparators[0], ast.Constant) and isinstance(a.comparators[0].value, bool):
+                extra.add((self.ntext(a.left), a.comparators[0].value))      # `e is True` holds: e holds
+            out.add((env_t, facts | {(t, truth)} | extra))
         return frozenset(out) if out else None
 
     def on_expr(self, node, state):
